@@ -16,7 +16,7 @@ known = json.load(open(os.path.join(ROOT, "KNOWN_FINDINGS.json")))["findings"]
 
 MODEL = {
     "C01": "Model/Store.lean (normPoint, collapse, mergeBatch, nodePoints, edgePoints); Lemmas/LWW.lean",
-    "C02": "Model/Sync.lean on two copies of Model/Store.lean; Lemmas/Sync.lean",
+    "C02": "Model/Sync.lean (the pass) on two copies of Model/Store.lean, Model/SyncLoop.lean (the select loop of Run); Lemmas/Sync, SyncExchange, SyncTree (whole subtrees), SyncLoop",
     "C03": "Model/Store.lean (bump, edgeWrite, edgeInsert, calcHash), Model/Crc32.lean; Lemmas/Hash, StoreBridge, StoreInv, StoreSteps, StoreEdge, StoreNewEdge",
     "C04": "Model/Crash.lean on Model/Store.lean",
     "C05": "Model/Store.lean (edgePoints pre-checks, ancestors); Lemmas/StoreReach.lean",
@@ -29,7 +29,7 @@ MODEL = {
     "C12": "Model/Proto3.lean, Model/Pb.lean; Lemmas/Pb.lean, Proto3.lean (wire level), PbBytes.lean (message level), Itoa.lean",
     "C13": "Model/Rule.lean (+ Model/Schedule.lean); Lemmas/Rule.lean",
     "C14": "Model/Schedule.lean, Spec/Window.lean; Lemmas/Schedule.lean",
-    "C15": "Model/Export.lean on the store model; Lemmas/Export.lean, ExportStore.lean (SendNode of exported nodes on the store model)",
+    "C15": "Model/Export.lean on the store model; Lemmas/Export.lean, ExportStore.lean (SendNode of exported nodes on the store model), ExportTree.lean and ExportForest.lean (the exported file is the traversal of its own tree)",
     "C16": "Model/Cobs.lean; Lemmas/Cobs, CobsReader, CobsStream",
     "C17": "Model/Serial.lean, Model/Crc16.lean; Lemmas/Crc16, Crc16Order, Crc16Detect, Bits, Serial, SubjectSafe",
     "C18": "Model/Modbus.lean, Spec/ModbusSpec.lean; Lemmas/Modbus, ModbusConforms",
@@ -117,7 +117,7 @@ for pid in sorted(props):
             else ("caught, no failing input found" if "VIOLATION" in res else "NOT caught")
         out.append(f"*Seeded mutation* (`seeded/{pid}/`): {meta.get('summary', '?')} — **{verdict}**."
                    + (f" {note}" if note else "") + "\n")
-    for wave, word in (("2", "Second"), ("3", "Third"), ("4", "Fourth"), ("5", "Fifth")):
+    for wave, word in (("2", "Second"), ("3", "Third"), ("4", "Fourth"), ("5", "Fifth"), ("6", "Sixth")):
         s2 = seeded(pid, wave)
         if s2:
             meta, res, note = s2
@@ -144,7 +144,7 @@ for k in sorted(known, key=lambda k: (k["property"], k["status"])):
 out.append("")
 # section 6 table: seeded mutations
 rows = []
-for wave in ("", "2", "3", "4", "5"):
+for wave in ("", "2", "3", "4", "5", "6"):
   for pid in sorted(props):
     s6 = seeded(pid, wave)
     if not s6:
